@@ -12,6 +12,7 @@ import (
 	"encoding/json"
 	"fmt"
 	"os"
+	"time"
 
 	"verifharness/hx"
 
@@ -87,7 +88,7 @@ func (v *values) Randomizer(n string) *big.Int  { return pick(n, v.ra, v.rb) }
 func (v *values) ProofResult(n string) *big.Int { return pick(n, v.pa, v.pb) }
 
 func main() {
-	if len(os.Args) < 2 || (os.Args[1] != "replay" && os.Args[1] != "group") {
+	if len(os.Args) < 2 || (os.Args[1] != "replay" && os.Args[1] != "group" && os.Args[1] != "smallgroups") {
 		hx.Fatal("usage: zk replay --in cases.ndjson | zk group")
 	}
 	if os.Args[1] == "replay" {
@@ -96,6 +97,32 @@ func main() {
 	g, ok := zkproof.BuildGroup(big.NewInt(23))
 	if !ok || g.Order.Cmp(big.NewInt(11)) != 0 {
 		hx.Fatal("zkproof.BuildGroup(23) failed: ok=%v order=%v", ok, g.Order)
+	}
+	if os.Args[1] == "smallgroups" { // BuildGroup on every small safe prime: returns, and gives two different generators of the subgroup of squares (or refuses)
+		for _, p := range []int64{5, 7, 11, 23, 47, 59, 83, 107} {
+			done := make(chan string, 1)
+			go func() {
+				sg, ok := zkproof.BuildGroup(big.NewInt(p))
+				if !ok {
+					done <- "refused"
+					return
+				}
+				one := big.NewInt(1)
+				inSub := func(x *big.Int) bool { return x.Cmp(one) > 0 && new(big.Int).Exp(x, sg.Order, sg.P).Cmp(one) == 0 }
+				if !inSub(sg.G) || !inSub(sg.H) || sg.G.Cmp(sg.H) == 0 {
+					done <- fmt.Sprintf("bad generators g=%v h=%v", sg.G, sg.H)
+					return
+				}
+				done <- "ok"
+			}()
+			select {
+			case r := <-done:
+				fmt.Printf("{\"p\": %d, \"result\": %q}\n", p, r)
+			case <-time.After(5 * time.Second):
+				fmt.Printf("{\"p\": %d, \"result\": \"does not return\"}\n", p)
+			}
+		}
+		return
 	}
 	if os.Args[1] == "group" { // print the generators of the toy group for the specification's constants
 		fmt.Printf("{\"g\": %v, \"h\": %v}\n", g.G, g.H)
